@@ -458,6 +458,20 @@ def run(ctx):
                       '"does not exist" (0) is answered only where stat() failed; facts: %s' % facts_str(facts)[:6])
             # ... and only for the two errno values that mean so: no path from the failed stat to this return avoids both tests
             def other_errno(b, i, s2):
+                # (a named boolean `file_missing = errno == ENOENT || errno == ENOTDIR` tested as a whole counts as well)
+                for key, pol, atom in st.edge_facts(b, i, all=True):
+                    a0 = strip(atom)
+                    if pol and isinstance(a0, dict) and a0.get('k') == 'bin' and a0.get('op') == '||':
+                        parts, stk = [], [a0]
+                        while stk:
+                            y = strip(stk.pop())
+                            if isinstance(y, dict) and y.get('k') == 'bin' and y.get('op') == '||':
+                                stk += [y['l'], y['r']]
+                            else:
+                                parts.append(y)
+                        if parts and all(isinstance(y, dict) and y.get('k') == 'bin' and y.get('op') == '==' and mentions_call(y['l'], '__errno_location') and
+                                         const_value(y['r']) in (2, 20) for y in parts):
+                            return False
                 for key, pol, atom in st.edge_facts(b, i, all=True):
                     a = strip(atom)
                     if pol and isinstance(a, dict) and a.get('k') == 'bin' and a['op'] == '==' and mentions_call(a['l'], '__errno_location') \
